@@ -189,6 +189,7 @@ class HydrogenIon(Contribution):
 
 
     def prepare_each(self, model, wngrid):
+        self._ngrid = wngrid.shape[0]
         self._nlayers = model.nLayers
         self._P_dyne = model.pressureProfile * 1e6
 
